@@ -267,3 +267,54 @@ func (x *Value) VStore(site int, v any) {
 	x.v.Store(v)
 	rt.Emit(site, unsafe.Pointer(x), "value", "store", rt.FmtVal(v), "")
 }
+
+// Pointer shadows atomic.Pointer[T]; the logged value only says whether the pointer is nil (addresses are not stable).
+type Pointer[T any] struct{ v atomic.Pointer[T] }
+
+func ptrs[T any](p *T) string {
+	if p == nil {
+		return "nil"
+	}
+	return "ptr"
+}
+
+func (x *Pointer[T]) Load() *T                    { return x.VLoad(-1) }
+func (x *Pointer[T]) Store(v *T)                  { x.VStore(-1, v) }
+func (x *Pointer[T]) Swap(v *T) *T                { return x.VSwap(-1, v) }
+func (x *Pointer[T]) CompareAndSwap(o, n *T) bool { return x.VCompareAndSwap(-1, o, n) }
+func (x *Pointer[T]) VLoad(site int) *T {
+	if rt.Dead() {
+		return x.v.Load()
+	}
+	rt.Point("a.load")
+	r := x.v.Load()
+	rt.Emit(site, unsafe.Pointer(x), "ptr", "load", "", ptrs(r))
+	return r
+}
+func (x *Pointer[T]) VStore(site int, v *T) {
+	if rt.Dead() {
+		x.v.Store(v)
+		return
+	}
+	rt.Point("a.store")
+	x.v.Store(v)
+	rt.Emit(site, unsafe.Pointer(x), "ptr", "store", ptrs(v), "")
+}
+func (x *Pointer[T]) VSwap(site int, v *T) *T {
+	if rt.Dead() {
+		return x.v.Swap(v)
+	}
+	rt.Point("a.swap")
+	r := x.v.Swap(v)
+	rt.Emit(site, unsafe.Pointer(x), "ptr", "swap", ptrs(v), ptrs(r))
+	return r
+}
+func (x *Pointer[T]) VCompareAndSwap(site int, o, n *T) bool {
+	if rt.Dead() {
+		return x.v.CompareAndSwap(o, n)
+	}
+	rt.Point("a.cas")
+	r := x.v.CompareAndSwap(o, n)
+	rt.Emit(site, unsafe.Pointer(x), "ptr", "cas", ptrs(o)+","+ptrs(n), rt.Btoa(r))
+	return r
+}
